@@ -38,7 +38,7 @@ def split_passes(stream):
 
 class C09(Base):
     ID = "C09"
-    TECHNIQUE = ('deterministic simulation with fault injection: multi-tenant worlds, seeded pass counts, observer reads at seeded instants, overrun next(), for-loop driving; history checked against the documented pass table and flag timeline')
+    TECHNIQUE = ('deterministic simulation with fault injection: multi-tenant worlds, seeded pass counts, observer reads at seeded instants, overrun next(), rejected finalize() calls, for-loop driving; history checked against the documented pass table and flag timeline')
     EXPECTED_PROBES = ('obs_before_first_next', 'obs_after_exhaustion', 'pass2')
     SIZES = {"quick": (32, 24), "thorough": (128, 64)}
     RULE = ("worlds of 1-3 (thorough: 1-6) interleaved schedules; per slot "
@@ -563,7 +563,7 @@ HELPERS = ("optimal_steps_binomial", "optimal_steps_mixed",
 
 class C15(Base):
     ID = "C15"
-    TECHNIQUE = ('deterministic simulation: multi-tenant worlds under a seeded cooperative scheduler and a seeded pre-emptive scheduler (threads released one at a time at sys.settrace line events), streams compared with pristine-process baselines')
+    TECHNIQUE = ('deterministic simulation: multi-tenant worlds under a seeded cooperative scheduler and a seeded pre-emptive scheduler (threads released one at a time at sys.settrace line events; random hand-overs, whole-call excursions and pinned sweeps over the lines of a constructor), streams compared with pristine-process baselines')
     EXPECTED_PROBES = ('c15_baselines', 'c15_observer_pairs', 'e3_worlds', 'e3_excursions', 'e3_pinned_excursions')
     FORK_PER_RUN = True
     SIZES = {"quick": (32, 24), "thorough": (128, 64)}
@@ -583,8 +583,12 @@ class C15(Base):
         "the baseline process is forked from a parent that has imported the "
         "package and nothing else; a sample of baselines is recomputed in a "
         "genuinely fresh interpreter under another PYTHONHASHSEED",
-        "concurrency is cooperative: a schedule is suspended only between "
-        "its own calls (thread-level pre-emption: engine E3, thorough tier)",
+        "in the cooperative worlds a schedule is suspended only between its "
+        "own calls; thread-level pre-emption inside a call is engine E3 (8% "
+        "of quick and 30% of thorough runs: random hand-overs and whole-call "
+        "excursions at line events; 3% / 5% of runs: pinned sweeps, one "
+        "world per line k = 1..24 of a constructor plus 10 drawn lines of "
+        "the task's life)",
     ]
     helper = None
 
